@@ -344,6 +344,8 @@ class CFG:
                     return self._cond(d, preds, k, _expanding + (expr.id,))
                 finally:
                     self._no_exc -= 1
+        if isinstance(expr, ast.Call) and isinstance(expr.func, ast.Name) and expr.func.id == 'bool' and len(expr.args) == 1 and not expr.keywords:
+            return self._cond(expr.args[0], preds, k, _expanding)   # bool(x) branches like x
         if isinstance(expr, ast.UnaryOp) and isinstance(expr.op, ast.Not):
             t, f = self._cond(expr.operand, preds, k, _expanding)
             return f, t
